@@ -113,17 +113,19 @@ class TlcResult:
         m = re.search(r"The depth of the complete state graph search is (\d+)", out)
         self.depth = int(m.group(1)) if m else 0
         self.verdicts = []
-        for m in re.finditer(r'<<"VERDICT", "(\w+)", (\d+), (-?\d+), (.*?)>>\s*$', out, re.M):
-            self.verdicts.append((m.group(1), int(m.group(2)), int(m.group(3)), m.group(4).strip('"')))
+        for m in re.finditer(r'^"VERDICT\|(\w+)\|(\d+)\|(-?\d+)\|(.*)"\s*$', out, re.M):
+            self.verdicts.append((m.group(1), int(m.group(2)), int(m.group(3)), m.group(4).replace('\\"', '"')))
         self.ok = rc == 0 and "Model checking completed. No error has been found" in out
         self.violation = "is violated" in out or "Invariant" in out and "violated" in out
         self.error = rc != 0 and not self.violation
 
 
-def tlc(workdir, module_dir, module, cfg, env=None, workers=1, timeout=1800, extra=None, heap="4g", deviations=None, dfs=False):
-    """Run TLC on module_dir/module.tla with module_dir/cfg. Output and metadir under workdir."""
+def tlc(workdir, module_dir, module, cfg, env=None, workers=1, timeout=1800, extra=None, heap="4g", deviations=None, dfs=False, scen_out=None):
+    """Run TLC on module_dir/module.tla with module_dir/cfg. Output and metadir under workdir.
+    Lines <<"SCN", "<json>">> printed by the spec (TraceIO!EmitScenario) are collected into scen_out."""
     os.makedirs(workdir, exist_ok=True)
-    meta = os.path.join(workdir, "meta-%s-%d" % (os.path.splitext(cfg)[0], os.getpid()))
+    tag = "%s-%d-%d" % (os.path.splitext(cfg)[0], os.getpid(), int(time.time() * 1000) % 100000)
+    meta = os.path.join(workdir, "meta-" + tag)
     shutil.rmtree(meta, ignore_errors=True)
     libpath = [os.path.join(SPECS, "lib"), module_dir, workdir]
     for d in sorted(os.listdir(SPECS)):
@@ -136,14 +138,40 @@ def tlc(workdir, module_dir, module, cfg, env=None, workers=1, timeout=1800, ext
     cmd = ["java", "-XX:+UseParallelGC", "-Xmx" + heap, "-DTLA-Library=" + ":".join(libpath)]
     if dfs:
         cmd.append("-Dtlc2.tool.queue.IStateQueue=StateDeque")
-    cmd += ["-cp", TLA_JAR, "tlc2.TLC", "-workers", str(workers), "-metadir", meta, "-config", os.path.join(module_dir, cfg)]
+    cmd += ["-cp", TLA_JAR, "tlc2.TLC", "-noGenerateSpecTE", "-workers", str(workers), "-metadir", meta, "-config", os.path.join(module_dir, cfg)]
     if extra:
         cmd += extra
     cmd.append(os.path.join(module_dir, module))
     t0 = time.time()
-    p = sh(cmd, timeout=timeout, env=env, cwd=workdir)
+    outpath = os.path.join(workdir, "tlc-%s.out" % tag)
+    e = dict(os.environ)
+    if env:
+        e.update(env)
+    with open(outpath, "w") as of:
+        try:
+            p = subprocess.run(cmd, stdout=of, stderr=subprocess.STDOUT, timeout=timeout, env=e, cwd=workdir)
+        except subprocess.TimeoutExpired as ex:
+            shutil.rmtree(meta, ignore_errors=True)
+            raise Broken("TLC timeout after %ss: %s %s" % (timeout, module, cfg)) from ex
     shutil.rmtree(meta, ignore_errors=True)
-    r = TlcResult(p.returncode, p.stdout)
+    keep = []
+    size = 0
+    sf = open(scen_out, "a") if scen_out else None
+    with open(outpath, errors="replace") as f:
+        for line in f:
+            if line.startswith('<<"SCN", "'):
+                if sf:
+                    sf.write(line[10:].rstrip()[:-3].replace('\\"', '"').replace("\\\\", "\\") + "\n")
+                continue
+            keep.append(line)
+            size += len(line)
+            if size > 400000:
+                keep = keep[len(keep) // 2:]
+                size = sum(len(x) for x in keep)
+    if sf:
+        sf.close()
+    os.remove(outpath)
+    r = TlcResult(p.returncode, "".join(keep))
     r.wall = time.time() - t0
     return r
 
